@@ -739,6 +739,19 @@ def rule_R(ctx):
         case = {'coordinates': srid, 'columns': lay, 'separator': sep, 'header': h}
         path = '/out/t%d.csv' % n_cases
         src = build(srid)
+        if n_cases in (4, 19) and 'writeToGpx' in ctx.prog.cls(TW._qual).methods:
+            # an export that is refused (a GPX path without the .gpx extension; one file per track into something that is no directory):
+            # the CSV files written afterwards are as readable as before
+            case = dict(case, history='after a GPX export that was refused (%s)' % ('path without .gpx extension' if n_cases == 4 else 'one file per track, path not a directory'))
+            try:
+                if n_cases == 4:
+                    TW.writeToGpx(build('GEO'), '/out/refused.txt')
+                else:
+                    TW.writeToGpx(build('GEO'), '/out/no_such_directory/refused', False, False)
+            except orders.Unsupported as ex:
+                raise shape_error('writeToGpx not interpretable: %s' % ex, fw.loc())
+            except orders.PROGRAM_ERRORS:
+                pass
         try:
             TW.writeToFile(src, path, lay['id_E'], lay['id_N'], lay['id_U'], lay['id_T'], sep, h)
             fmt = TF({'ext': 'CSV', 'srid': srid, 'id_E': lay['id_E'], 'id_N': lay['id_N'], 'id_U': lay['id_U'], 'id_T': lay['id_T'], 'separator': sep, 'header': h})
